@@ -2964,53 +2964,65 @@ void Analyser::AnalyserImpl::analyseModel(const ModelPtr &model)
     //       were removed (as a result of some variables in an NLA equation
     //       having been marked as external).
 
+    // Note: requalifying an equation may, in turn, require requalifying the
+    //       equations that use the variable it computes, whatever the order in
+    //       which the equations are listed, hence we go through our equations
+    //       until there is nothing left to requalify.
+
     AnalyserInternalVariablePtrs overconstrainedVariables;
+    bool requalifiedSomeEquations;
 
-    for (const auto &internalEquation : mInternalEquations) {
-        switch (internalEquation->mType) {
-        case AnalyserInternalEquation::Type::VARIABLE_BASED_CONSTANT: {
-            auto unknownVariable = internalEquation->mUnknownVariables.front();
+    do {
+        requalifiedSomeEquations = false;
 
-            for (const auto &variable : internalEquation->mAllVariables) {
-                if ((variable != unknownVariable)
-                    && (variable->mType != AnalyserInternalVariable::Type::CONSTANT)
-                    && (variable->mType != AnalyserInternalVariable::Type::COMPUTED_TRUE_CONSTANT)
-                    && (variable->mType != AnalyserInternalVariable::Type::COMPUTED_VARIABLE_BASED_CONSTANT)) {
-                    // We are supposed to compute a variable-based constant, yet
-                    // we have come across a variable which is not some kind of
-                    // a constant. In fact, it was an algebraic variable (with
-                    // an initial guess) that needs to be computed using an NLA
-                    // system. So, requalify the unknown variable and equation.
+        for (const auto &internalEquation : mInternalEquations) {
+            switch (internalEquation->mType) {
+            case AnalyserInternalEquation::Type::VARIABLE_BASED_CONSTANT: {
+                auto unknownVariable = internalEquation->mUnknownVariables.front();
 
-                    unknownVariable->mType = AnalyserInternalVariable::Type::ALGEBRAIC;
-                    internalEquation->mType = AnalyserInternalEquation::Type::ALGEBRAIC;
+                for (const auto &variable : internalEquation->mAllVariables) {
+                    if ((variable != unknownVariable)
+                        && (variable->mType != AnalyserInternalVariable::Type::CONSTANT)
+                        && (variable->mType != AnalyserInternalVariable::Type::COMPUTED_TRUE_CONSTANT)
+                        && (variable->mType != AnalyserInternalVariable::Type::COMPUTED_VARIABLE_BASED_CONSTANT)) {
+                        // We are supposed to compute a variable-based constant, yet
+                        // we have come across a variable which is not some kind of
+                        // a constant. In fact, it was an algebraic variable (with
+                        // an initial guess) that needs to be computed using an NLA
+                        // system. So, requalify the unknown variable and equation.
 
-                    break;
-                }
-            }
-        } break;
-        case AnalyserInternalEquation::Type::NLA:
-            if (internalEquation->mNlaSiblings.size() + 1 > internalEquation->mUnknownVariables.size()) {
-                // There are more NLA equations than unknown variables, so all
-                // the unknown variables involved in the NLA system should be
-                // considered as overconstrained.
+                        unknownVariable->mType = AnalyserInternalVariable::Type::ALGEBRAIC;
+                        internalEquation->mType = AnalyserInternalEquation::Type::ALGEBRAIC;
 
-                for (const auto &unknownVariable : internalEquation->mUnknownVariables) {
-                    if (std::find(overconstrainedVariables.begin(), overconstrainedVariables.end(), unknownVariable) == overconstrainedVariables.end()) {
-                        unknownVariable->mType = AnalyserInternalVariable::Type::OVERCONSTRAINED;
+                        requalifiedSomeEquations = true;
 
-                        addInvalidVariableIssue(unknownVariable, Issue::ReferenceRule::ANALYSER_VARIABLE_COMPUTED_MORE_THAN_ONCE);
-
-                        overconstrainedVariables.push_back(unknownVariable);
+                        break;
                     }
                 }
-            }
+            } break;
+            case AnalyserInternalEquation::Type::NLA:
+                if (internalEquation->mNlaSiblings.size() + 1 > internalEquation->mUnknownVariables.size()) {
+                    // There are more NLA equations than unknown variables, so all
+                    // the unknown variables involved in the NLA system should be
+                    // considered as overconstrained.
 
-            break;
-        default: // Other types we don't care about.
-            break;
+                    for (const auto &unknownVariable : internalEquation->mUnknownVariables) {
+                        if (std::find(overconstrainedVariables.begin(), overconstrainedVariables.end(), unknownVariable) == overconstrainedVariables.end()) {
+                            unknownVariable->mType = AnalyserInternalVariable::Type::OVERCONSTRAINED;
+
+                            addInvalidVariableIssue(unknownVariable, Issue::ReferenceRule::ANALYSER_VARIABLE_COMPUTED_MORE_THAN_ONCE);
+
+                            overconstrainedVariables.push_back(unknownVariable);
+                        }
+                    }
+                }
+
+                break;
+            default: // Other types we don't care about.
+                break;
+            }
         }
-    }
+    } while (requalifiedSomeEquations);
 
     if (mAnalyser->errorCount() != 0) {
         mModel->mPimpl->mType = AnalyserModel::Type::OVERCONSTRAINED;
